@@ -1,7 +1,32 @@
 """C05 - write permissions follow the mode table; CI runs are read-only."""
+import os, shutil, subprocess
 from runner import Prop
-from common import hx, unhx
+from common import hx, unhx, REPO, GOENV
 import gen as G
+
+BB_TEST = '''package bb
+
+import (
+	"os"
+	"testing"
+
+	"github.com/gkampitakis/go-snaps/snaps"
+)
+
+func TestMain(m *testing.M) {
+	v := m.Run()
+	snaps.Clean(m)
+	os.Exit(v)
+}
+
+func TestVal(t *testing.T)   { snaps.MatchSnapshot(t, os.Getenv("BB_VALUE")) }
+func TestStand(t *testing.T) { snaps.MatchStandaloneSnapshot(t, os.Getenv("BB_VALUE")) }
+func TestGone(t *testing.T) {
+	if os.Getenv("BB_GONE") == "1" {
+		snaps.MatchSnapshot(t, "gone")
+	}
+}
+'''
 
 
 class C05(Prop):
@@ -58,6 +83,86 @@ class C05(Prop):
         if state == "equal":
             return ("passed", False)
         return ("updated", True) if may_update else ("failed:diff", False)
+
+    def extra_run(self, tier, seed, workdir):
+        """Black box: the mode is decoded from the REAL process environment when the package is initialised (ciinfo, os.Getenv,
+        the shouldClean expression) - which the white-box harness, setting the package variables itself, cannot see. A tiny module
+        with TestMain + snaps.Clean is run as a real `go test` binary under every (CI, UPDATE_SNAPS) cell from three starting
+        points: nothing recorded, the recorded values, other recorded values + a stale entry."""
+        mod = os.path.join(workdir, "bbmode")
+        os.makedirs(mod, exist_ok=True)
+        open(os.path.join(mod, "go.mod"), "w").write("module bb\n\ngo 1.22\n\nrequire github.com/gkampitakis/go-snaps v0.0.0\n\nreplace github.com/gkampitakis/go-snaps => %s\n" % REPO)
+        shutil.copy(os.path.join(REPO, "go.sum"), os.path.join(mod, "go.sum"))
+        open(os.path.join(mod, "m_test.go"), "w").write(BB_TEST)
+        env = dict(GOENV, NO_COLOR="1")
+        for k in list(env):
+            if k in ("CI", "UPDATE_SNAPS", "CONTINUOUS_INTEGRATION", "BUILD_NUMBER", "RUN_ID") or k.startswith(("GITHUB_", "GITLAB_", "JENKINS_", "BUILDKITE", "TRAVIS", "CIRCLE")):
+                env.pop(k)
+        binp = os.path.join(workdir, "bbmode.test")
+        p = subprocess.run(["go", "test", "-c", "-vet=off", "-o", binp, "."], cwd=mod, env=env, stdout=subprocess.PIPE, stderr=subprocess.STDOUT, text=True, errors="replace")
+        if p.returncode != 0:
+            return [{"msg": "black-box build failed: " + p.stdout[-800:]}], {}
+        snapdir = os.path.join(mod, "__snapshots__")
+
+        def run(e):
+            q = subprocess.run([binp, "-test.count=1"], cwd=mod, env=dict(env, **e), stdout=subprocess.PIPE, stderr=subprocess.STDOUT, text=True, errors="replace")
+            img = {}
+            if os.path.isdir(snapdir):
+                for f in sorted(os.listdir(snapdir)):
+                    img[f] = open(os.path.join(snapdir, f), "rb").read()
+            return q.returncode, q.stdout, img
+
+        shutil.rmtree(snapdir, ignore_errors=True)
+        rc, out, base = run({"BB_VALUE": "v0", "BB_GONE": "1"})
+        fails, cells = [], 0
+        if rc != 0 or set(base) != {"m_test.snap", "TestStand_1.snap"} or b"[TestGone - 1]" not in base.get("m_test.snap", b""):
+            return [{"msg": "black box: the recording run did not create the expected files: rc=%s files=%s" % (rc, sorted(base))}], {}
+        upds = [None, "true", "clean", "false", "1", "TRUE", "", "yes"]
+        for ci in (False, True):
+            for upd in upds:
+                e = {}
+                if ci:
+                    e["CI"] = "true"
+                if upd is not None:
+                    e["UPDATE_SNAPS"] = upd
+                may_update = (not ci) and upd == "true"
+                may_create = not ci
+                deletes = (not ci) and upd in ("true", "clean")
+                where = "CI=%s UPDATE_SNAPS=%r" % (ci, upd)
+                # (1) nothing recorded
+                shutil.rmtree(snapdir, ignore_errors=True)
+                rc, out, img = run(dict(e, BB_VALUE="v0", BB_GONE="0"))
+                cells += 1
+                if may_create != (("m_test.snap" in img) and ("TestStand_1.snap" in img)) or (rc == 0) != may_create:
+                    fails.append({"msg": "black box %s, nothing recorded: exit=%d files=%s (creation allowed: %s)" % (where, rc, sorted(img), may_create)})
+                # (2) other values recorded + a stale entry
+                shutil.rmtree(snapdir, ignore_errors=True)
+                os.makedirs(snapdir)
+                for f, b in base.items():
+                    open(os.path.join(snapdir, f), "wb").write(b)
+                rc, out, img = run(dict(e, BB_VALUE="v1", BB_GONE="0"))
+                cells += 1
+                changed = img.get("TestStand_1.snap") == b"v1" and b"\nv1\n" in img.get("m_test.snap", b"")
+                untouched = img.get("TestStand_1.snap") == b"v0" and b"\nv0\n" in img.get("m_test.snap", b"")
+                if may_update and not (changed and rc == 0):
+                    fails.append({"msg": "black box %s, changed values: not updated (exit=%d)" % (where, rc)})
+                if not may_update and not (untouched and rc != 0):
+                    fails.append({"msg": "black box %s, changed values: exit=%d, stored values %s (updating is not enabled: the mismatch must fail the run and leave the files alone)"
+                                         % (where, rc, "changed" if changed else "other")})
+                stale_there = b"[TestGone - 1]" in img.get("m_test.snap", b"")
+                if deletes == stale_there:
+                    fails.append({"msg": "black box %s: stale entry %s (Clean deletes: %s)" % (where, "kept" if stale_there else "removed", deletes)})
+                # (3) the recorded values: passes in every mode, files byte-identical apart from the stale entry
+                shutil.rmtree(snapdir, ignore_errors=True)
+                os.makedirs(snapdir)
+                for f, b in base.items():
+                    open(os.path.join(snapdir, f), "wb").write(b)
+                rc, out, img = run(dict(e, BB_VALUE="v0", BB_GONE="1"))
+                cells += 1
+                if rc != 0 or img != base:
+                    fails.append({"msg": "black box %s, recorded values replayed: exit=%d, files %s" % (where, rc, "changed" if img != base else "same")})
+        shutil.rmtree(snapdir, ignore_errors=True)
+        return fails, {"black_box_mode_cells": cells, "black_box": "real go test binary with TestMain+Clean under real CI / UPDATE_SNAPS environment variables"}
 
     def oracle(self, case, ops, results):
         cell = case["meta"].get("cell")
